@@ -3,7 +3,7 @@
 From Coq Require Import List ZArith Bool Arith Lia.
 Import ListNotations.
 Require Import DH.C14_Timeout.Model DH.C14_Timeout.Lemmas DH.C14_Timeout.Check DH.C14_Timeout.Global DH.C14_Timeout.GlobalBase
-  DH.C14_Timeout.GlobalInv DH.C14_Timeout.GlobalRefine DH.C14_Timeout.Accept.
+  DH.C14_Timeout.GlobalInv DH.C14_Timeout.GlobalRefine DH.C14_Timeout.GlobalSafety DH.C14_Timeout.Accept.
 
 Lemma jev_eqb_eq a b : jev_eqb a b = true -> a = b.
 Proof. destruct a, b; cbn; intros H; try discriminate; try reflexivity; apply st_eqb_eq in H; congruence. Qed.
@@ -40,4 +40,13 @@ Corollary accepted_is_model_run c w b os g : accept c (ginit w b) os 0 = (g, Non
 Proof.
   intros H. destruct (accept_sound c os _ 0 g H) as (tr & R & O). split; [exact (inv_run c tr _ _ (inv_init c w b) R)|].
   exists tr. split; [exact R|]. split; [exact O|]. intros K j. rewrite <- O. apply refinement; assumption.
+Qed.
+
+(* an accepted observation in which no job was finalised against the order of the deadline (the acceptor's count [races] is 0)
+   is a run of the SHARP-deadline model: the theorems (c) apply to it *)
+Corollary accepted_race_free_is_strict k w b os g : accept (observed_cfg k) (ginit w b) os 0 = (g, None) -> races g = 0 ->
+  exists tr, grun (mkCfg true true k) (ginit w b) tr = Some g /\ otrace (mkCfg true true k) (ginit w b) tr = flat_map oobs os.
+Proof.
+  intros H Z. destruct (accept_sound _ os _ 0 g H) as (tr & R & O). exists tr.
+  destruct (race_free_run_is_strict true k tr _ _ R Z) as [A B]. split; [exact A|]. rewrite B. exact O.
 Qed.
